@@ -6,11 +6,17 @@ from vlib import Infra, read_ndjson
 ALLV = '{"root-dots", "flag-dots", "root-listed", "root-reversed", "root-dup"}'
 TWOV = '{"root-dots", "flag-dots"}'
 # (HistLen, Variants, ArgLen, WithPlace, WithArgv) per property and tier
+ALLBAD = '{"directive", "signature", "conversion", "unknown2", "enumkeys2", "fieldtargets2", "marker", "format", "ctxmissing3"}'
+FEWBAD = '{"conversion", "marker", "format"}'
+ONEBAD = '{"conversion"}'
+ALLLAY = '{"separate", "same", "shared", "tie", "twofiles"}'
+ALLTAG = '{"default", "custom", "multi"}'
+# (HistLen, Variants, ArgLen, WithPlace, WithArgv, BadKinds, Layouts, Tags) per property and tier
 PARAMS = {
-    ("C09", "quick"): (2, ALLV, 1, False, False), ("C09", "thorough"): (3, ALLV, 1, True, False),
-    ("C15", "quick"): (2, TWOV, 1, True, False), ("C15", "thorough"): (3, ALLV, 1, True, False),
-    ("C16", "quick"): (3, TWOV, 1, False, False), ("C16", "thorough"): (4, TWOV, 1, True, False),
-    ("C17", "quick"): (3, TWOV, 3, False, True), ("C17", "thorough"): (4, TWOV, 4, True, True),
+    ("C09", "quick"): (2, ALLV, 1, False, False, ALLBAD, ALLLAY, '{"default"}'), ("C09", "thorough"): (3, ALLV, 1, True, False, ALLBAD, ALLLAY, ALLTAG),
+    ("C15", "quick"): (2, TWOV, 1, True, False, ONEBAD, ALLLAY, '{"default"}'), ("C15", "thorough"): (3, ALLV, 1, True, False, FEWBAD, ALLLAY, ALLTAG),
+    ("C16", "quick"): (3, '{"root-dots"}', 1, False, False, ONEBAD, '{"separate", "same", "shared", "twofiles"}', ALLTAG), ("C16", "thorough"): (4, TWOV, 1, True, False, FEWBAD, ALLLAY, ALLTAG),
+    ("C17", "quick"): (3, '{"root-dots"}', 3, False, True, ALLBAD, '{"separate", "twofiles"}', '{"default"}'), ("C17", "thorough"): (4, TWOV, 4, True, True, ALLBAD, ALLLAY, ALLTAG),
 }
 MC_CFG = ("SPECIFICATION Spec\nCONSTANTS\n  MaxLen = %d\nINVARIANTS A_FailureIsReadOnly A_ExitReflectsOutcome A_SuccessWritesAll A_StaleNeverBlocks A_HistoryIndependent\n"
           "PROPERTY A_OnlyGenWrites\nCHECK_DEADLOCK FALSE\n")
@@ -19,18 +25,18 @@ MC_CFG = ("SPECIFICATION Spec\nCONSTANTS\n  MaxLen = %d\nINVARIANTS A_FailureIsR
 def pipeline(run):
     run.build_harness()
     cli = run.build_cli()
-    hl, variants, al, wp, wa = PARAMS[(run.prop, run.tier)]
+    hl, variants, al, wp, wa, bads, lays, tags = PARAMS[(run.prop, run.tier)]
     scen = os.path.join(run.scratch, "rscen.ndjson")
     if run.replay:
         scen = os.path.join(run.replay, "scen-run.ndjson")
     else:
         run.model_check("Run", MC_CFG % (4 if run.tier == "quick" else 5), workers=16, timeout=1800)
-        cfg = ("INIT Init\nNEXT Next\nCONSTANTS\n  ScenOut = \"%s\"\n  HistLen = %d\n  Variants = %s\n  ArgLen = %d\n  WithPlace = %s\n  WithArgv = %s\nCHECK_DEADLOCK FALSE\n"
-               % (scen, hl, variants, al, "TRUE" if wp else "FALSE", "TRUE" if wa else "FALSE"))
+        cfg = ("INIT Init\nNEXT Next\nCONSTANTS\n  ScenOut = \"%s\"\n  HistLen = %d\n  Variants = %s\n  ArgLen = %d\n  WithPlace = %s\n  WithArgv = %s\n  BadKinds = %s\n  LayoutSet = %s\n  TagSet = %s\nCHECK_DEADLOCK FALSE\n"
+               % (scen, hl, variants, al, "TRUE" if wp else "FALSE", "TRUE" if wa else "FALSE", bads, lays, tags))
         out = run.tlc("Export_Run", cfg, workers=1, timeout=1800, role="export")
         if "exported" not in out:
             raise Infra("export failed:\n" + out[-3000:])
-        run.extra["bounds"] = dict(history_length=hl, gen_variants=variants, argv_length=al, placements=wp, argvs=wa)
+        run.extra["bounds"] = dict(history_length=hl, gen_variants=variants, argv_length=al, placements=wp, argvs=wa, faults=bads, layouts=lays, tags=tags)
     obs = os.path.join(run.scratch, "robs.ndjson")
     summ = run.harness(["run", "-scen", scen, "-obs", obs, "-work", os.path.join(run.scratch, "wr"), "-bin", cli], timeout=7200)
     run.fam = "run"
